@@ -49,7 +49,7 @@ CLAIMS = {
              "False; every apply-type method every concrete class defines or inherits from repo code is executed on a freshly "
              "constructed object with well-formed arguments and must raise NotFittedError on every path; nested parameters: "
              "_HeterogenousMetaEstimator._set_params/_get_params (whole list, then by name, then plain/nested keys; unknown names "
-             "rejected) and fit-leaves-parameters for the pipeline; Detrender.update guard.",
+             "rejected) and fit-leaves-parameters for the pipeline and NaiveForecaster.fit (32 cases); Detrender.update guard.",
         note="best-effort sweep: classes/methods whose code leaves the verified subset are listed in the evidence as not covered (they "
              "do not make the run undecided); sklearn BaseEstimator.get_params/set_params/clone are modelled from their documented "
              "algorithm (assumed); known constructor deviations are listed in known_findings.json; runnable estimators are "
@@ -286,7 +286,8 @@ CLAIMS = {
              "once on exactly the fold's training rows iff something requested is missing, exactly the missing train / test predictions "
              "and fitted strategy are produced and saved under (strategy name, dataset name, fold, part) with y_true taken from the same "
              "rows, completed records are left alone, results are saved once at the end; RAMResults._generate_key is the 4-tuple of its "
-             "components, hence injective.",
+             "components, hence injective; BaseResults._append_key registers both names exactly once; HDDResults.save_predictions writes "
+             "index / y_true / y_pred under the record's key unformatted (no float_format) and registers the names.",
         note="the store, strategy, task and data frame are abstract; _iter (tasks x strategies x folds, fresh clone per fold) is "
              "abstracted to 'an arbitrary cell'; HDDResults file layout, resume across processes and disk read-back are bounded-tier only",
         technique="contract-based deductive verification: AST->VC generation (pyvc) + z3; per-iteration ghost-event schema",
